@@ -12,8 +12,8 @@ import (
 func init() {
 	register(&Property{
 		Meta: PropMeta{
-			ID:    "C20",
-			Level: "other",
+			ID:          "C20",
+			Level:       "other",
 			Explanation: "Structural necessary conditions of the unknown-command diagnosis, decided on the SSA of /repo for all paths: (VISIBLE) the candidate names in estimateCommand derive only from sortedVisibleCommands (hidden commands can be neither suggested nor enumerated) and the enumeration joins all of them; (THRESHOLD) the `did you mean` branch is guarded by the strict test distance/length < 0.5 (or the equivalent strict 2·distance < length) with the length counted in characters of the suggested name; (MINIMUM) closestChoice visits every candidate (no early exit) and replaces the best only on a strict `<`, so the first minimum in sorted order wins; (DP) levenshtein works on character slices, returns only len(t) / len(s) for an empty operand or the last table cell, initialises both borders over their full dimension, and every interior cell (i+1,j+1) is written with exactly the textbook candidates — the diagonal on equal characters, else diagonal+1, left+1 when left < current, up+1 when up < current; (NP) no instruction of closestChoice, levenshtein or estimateCommand can panic.",
 			NotDecided:  "that the number computed is the Levenshtein distance for every pair of strings (a numeric result; the rules check the recurrence's shape, border initialisation and index arithmetic, not its values); the threshold constant's adequacy.",
 			Trusted:     []string{"go/ssa lowering", "go/types", "the []rune conversion yields one element per character"},
@@ -65,11 +65,12 @@ func runC20(c *Ctx, r *Report, tier string) {
 		r.Check(strings.HasPrefix(c.term(call.Call.Args[0]), "idx(parseState.retargs(P0), 0)"), "VISIBLE", en, "word compared", c.ipos(in), "the first remaining argument", "compares "+trunc(c.term(call.Call.Args[0]), 80))
 	}
 	nJoin := 0
-	for _, in := range c.instrs(ec, c.isCallTo("strings.Join")) {
-		call := in.(*ssa.Call)
-		t := c.term(call.Call.Args[0])
+	for _, ci := range c.instrsCtx(ec, c.isCallTo("strings.Join")) {
+		call := ci.In.(*ssa.Call)
+		var t string
+		c.within(ci.Frames, func() { t = c.term(call.Call.Args[0]) })
 		nJoin++
-		r.Check(strings.HasPrefix(t, "slice(makeslice[[]string](len(call:(*Command).sortedVisibleCommands("), "VISIBLE", en, "enumeration source", c.ipos(in), "all names but the last are joined, the last is appended separately", "enumeration joins "+trunc(t, 120))
+		r.Check(strings.HasPrefix(t, "slice(makeslice[[]string](len(call:(*Command).sortedVisibleCommands("), "VISIBLE", en, "enumeration source", c.ipos(ci.In), "all names but the last are joined, the last is appended separately", "enumeration joins "+trunc(t, 120))
 	}
 	r.Check(nJoin >= 2, "VISIBLE", en, "enumeration sites", c.pos(ec.Pos()), "both messages enumerate the visible names", fmt.Sprintf("%d enumeration sites", nJoin))
 	if len(c.instrs(ec, func(in ssa.Instruction) bool {
